@@ -851,18 +851,32 @@ func RunC09(c *Ctx) error {
 			// a byte that can belong to no token, BETWEEN two productions: if gocc accepts the
 			// file it must have ignored that byte, i.e. generated exactly what it generates
 			// for the undamaged file (anything else was generated from a part of the file)
-			if at := strings.Index(text[len(text)/2:], ";\n\n"); at >= 0 && cs.gc.IR != nil && !strings.HasPrefix(cs.gc.ID, "awk-") {
-				at += len(text)/2 + 2
-				for _, junk := range []struct{ b, what string }{{"\x00", "NUL"}, {"\xff", "byte 0xFF"}, {"\x1a", "^Z"}} {
-					cs2 := *cs
-					cs2.spec.GrammarText = text[:at] + junk.b + text[at:]
-					mjobs = append(mjobs, &mjob{cs: &cs2, what: "with " + junk.what + " between two productions", sameAsRef: true})
+			if cs.gc.IR != nil && !strings.HasPrefix(cs.gc.ID, "awk-") {
+				var bounds []int
+				for at := 0; ; {
+					k := strings.Index(text[at:], ";\n\n")
+					if k < 0 {
+						break
+					}
+					at += k + 2
+					bounds = append(bounds, at)
 				}
-			}
-			for _, odd := range []struct{ text, what string }{} {
-				cs2 := *cs
-				cs2.spec.GrammarText = odd.text
-				mjobs = append(mjobs, &mjob{cs: &cs2, what: odd.what})
+				for len(bounds) > 12 {
+					bounds = append(bounds[:1], bounds[2:]...) // thin out, keep the ends
+					for i := 1; i+1 < len(bounds) && len(bounds) > 12; i += 2 {
+						bounds = append(bounds[:i], bounds[i+1:]...)
+					}
+				}
+				for bi, at := range bounds {
+					for ji, junk := range []struct{ b, what string }{{"\x00", "NUL"}, {"\xff", "byte 0xFF"}, {"\x1a", "^Z"}} {
+						if ji > 0 && bi != len(bounds)/2 {
+							continue
+						}
+						cs2 := *cs
+						cs2.spec.GrammarText = text[:at] + junk.b + text[at:]
+						mjobs = append(mjobs, &mjob{cs: &cs2, what: fmt.Sprintf("with %s between two productions (byte %d)", junk.what, at), sameAsRef: true})
+					}
+				}
 			}
 		}
 		for k := 0; k < nMut; k++ {
